@@ -10,7 +10,7 @@ PROPERTY = {
     'id': 'C15',
     'technique': 'CrossHair symbolic execution of two related builds per path (metamorphic): a merge sequence with symbolic delete/priority flags vs. its transformed twin (rebuilt, last document repeated, empty document inserted at a symbolic position, keys permuted, !unsafe / !new marker added at a selector-chosen node); z3 decides equality on every path',
     'assumptions': [
-        'metadata codec stub for !metadata:sK sites (native replays use the real pickle codec)',
+        'metadata codec stub for !metadata:<token> sites (native replays use the real pickle codec)',
         'document families: the C04 family (flat focus, falsy leaves), a deep family (mapping chain a.b.c with lists 2..3 levels below the tagged nodes) and a root family (3 documents, symbolic priority on the ROOT of the first and last document, optional forced sub-tree in the middle one)',
     ],
     'bounds': {'stages': '2..3', 'marker positions': 'every node of every document of the deep family (root, a, b, c, lists) and root/focus of the C04 family',
